@@ -29,6 +29,7 @@ Section WithConfig.
   Variable keep : bool.            (* which getblock: repaired (true) or pinned (false) *)
   Variables t_suffix t_enc t_strict t_common : list (str * str).
   Variable default_mime : str.
+  Variable eaexts : list (str * str).       (* the configured [GopherEntry] eaexts, in dictionary order *)
   Variable admin : str.
   Variable srvname : str.
   Variable srvport : Z.
@@ -39,7 +40,7 @@ Section WithConfig.
   Definition chk_populate (c : ((str * (bool * (N * N))) * list (str * str)) * entry) : bool :=
     let '(((sel, (isdir, (size, mtime))), sc), impl) := c in
     entry_eqb
-      (populatefromfs t_suffix t_enc t_strict t_common default_mime default_eaexts (sidecar_of sc)
+      (populatefromfs t_suffix t_enc t_strict t_common default_mime eaexts (sidecar_of sc)
                       sel (Some (mkStat isdir size mtime 0)) (new_entry sel))
       impl.
 
